@@ -62,7 +62,5 @@ def search(ctx):
 
 
 def replay(path):
-    r = json.loads(open(path).read())
-    print(json.dumps(r.get("what") or r.get("no_longer_checks"))[:3000])
-    print("replay: re-run `VERIF_SEED=%s harness/vcheck.py C01 --tier %s` (cases are regenerated from the seed)" % (r.get("seed"), r.get("tier")))
-    return 1
+    known = next((e for e in core.load_known("C01") if e["id"] == KNOWN_W and e["status"] == "known"), None)
+    return calib.replay_with_data(path, "C01", lambda ctx, c, opts: run_one(ctx, c, known))
